@@ -208,6 +208,11 @@ def spec_trace(first, last, stop_epoch, nb):
     return out + [["te"]]
 
 
+def epoch_events(trace):
+    """projection of an event trace to the train-start / epoch-start / epoch-end / train-end events: which epochs ran, where it stopped"""
+    return [list(ev) for ev in trace if ev[0] in ("ts", "es", "ee", "te")]
+
+
 def metric_evaluator(fm, pe, metrics):
     from qucumber.callbacks import MetricEvaluator
 
@@ -437,11 +442,17 @@ def one_case(ctx, case, known_probe=False):
                     ctx.point("trace.raised", "property", False, True, case, exact=True, sig=f"{sig0}/exception", theorem="C18_first_stop")
                 else:
                     t = mt["ok"]
-                    ctx.point("trace.events", "property", impl["trace"], t["events"], case, exact=True, sig=f"{sig0}/event-trace", theorem=tht)
+                    # audit 3 (B13): C18 fixes WHICH epochs run and where the run stops; the batch-level part of the trace (0-based batch
+                    # index, batches per epoch) is C12 / C07 matter.  Property level: the projection to train-start / epoch-start /
+                    # epoch-end / train-end events; the full batch-level trace is the model-code tie only (auxiliary)
+                    ctx.point("trace.epoch-events", "property", epoch_events(impl["trace"]), epoch_events(t["events"]), case, exact=True,
+                              sig=f"{sig0}/event-trace", theorem=tht)
+                    ctx.point("trace.events", "aux", impl["trace"], t["events"], case, exact=True, sig=f"{sig0}/event-trace-batches", theorem=tht)
                     ctx.point("trace.stop", "property", impl["stop"], t["stop"], case, exact=True, sig=f"{sig0}/stop-flag", theorem=tht)
                     # what the theorem proves about the two models (checked on the executed definitions as well)
-                    ctx.point("trace.tie", "aux", [[ev_[1] for ev_ in t["events"] if ev_[0] == "ee"], t["stop"]],
-                              [t["fired"], t["loop_stop"]], case, exact=True, sig=f"{sig0}/model-tie")
+                    # audit 3 (B13): both sides are MODEL outputs - not a correspondence point; recorded as a counter only (ctx.info)
+                    ctx.info("trace.tie (two model outputs: epoch ends of the C12 trace == epochs of the stopper loop)",
+                             [[ev_[1] for ev_ in t["events"] if ev_[0] == "ee"], t["stop"]], [t["fired"], t["loop_stop"]])
 
     # ---- oracle: the documented rule, evaluated independently
     if not case.get("valid", True):
@@ -464,11 +475,17 @@ def one_case(ctx, case, known_probe=False):
     if impl.get("trace") is not None:
         first, last = case["cands"][0][0], case["cands"][-1][0]
         want = spec_trace(first, last, ref_stop, num_batches(case))
-        ctx.oracle("event trace of the run: train-start, the epochs up to the first checked epoch satisfying the rule (all of them if none) "
-                   "each with all its batches, that epoch's end, train-end; no later epoch starts", impl["trace"] == want, case,
-                   detail={"impl_trace_tail": impl["trace"][-6:], "expected_tail": want[-6:], "reference_stop_epoch": ref_stop,
-                           "lengths": [len(impl["trace"]), len(want)]},
+        # audit 3 (B13): the oracle judges the epoch-level projection (which epochs ran, where the run stopped, train-end once); how many
+        # batches an epoch has and how they are numbered is C12 / C07 matter, not C18's text: recorded only (ctx.info)
+        got_e, want_e = epoch_events(impl["trace"]), epoch_events(want)
+        ctx.oracle("event trace of the run (train-start / epoch-start / epoch-end / train-end events): train-start, the epochs up to the "
+                   "first checked epoch satisfying the rule (all of them if none), that epoch's end, train-end; no later epoch starts",
+                   got_e == want_e, case,
+                   detail={"impl_trace_tail": got_e[-6:], "expected_tail": want_e[-6:], "reference_stop_epoch": ref_stop,
+                           "lengths": [len(got_e), len(want_e)]},
                    sig=f"{sig0}/event-trace-oracle", theorem="C18_stop_trace")
+        ctx.info("event trace incl. the batch events (0-based batch index, ceil(N / batch size) batches per epoch: C12 / C07 matter)",
+                 impl["trace"], want)
     if degenerate:
         ctx.oracle("no stop at a degenerate comparison (zero reference / non-positive variance), whatever the tolerance",
                    impl["last_epoch"] not in degenerate, case, detail={"impl": impl, "degenerate_epochs": degenerate},
